@@ -268,6 +268,19 @@ pub trait Check: Sync {
     fn exhaustive(&self) -> bool {
         false
     }
+    /// signature of a panic text (override with `panic_sig_fn` for function-precise signatures)
+    fn panic_sig_of(&self, text: &str) -> String {
+        panic_sig(text)
+    }
+    /// true when a worker killed by the allocation cap (one request >= 1 GiB) or by the address-space
+    /// limit violates this property even if panics do not
+    fn alloc_death_is_violation(&self) -> bool {
+        self.panic_is_violation()
+    }
+    /// CPU seconds one case may use before the worker is aborted (reported like an allocation death)
+    fn case_cpu_limit_s(&self) -> u64 {
+        300
+    }
     /// whether C37's panic watch should also drive this check's workload
     fn in_panic_watch(&self) -> bool {
         true
@@ -303,7 +316,8 @@ pub fn install_panic_hook() {
         } else {
             "<non-string panic>".into()
         };
-        let text = format!("{loc}: {msg}");
+        let site = in_repo_site();
+        let text = if site.is_empty() { format!("{loc}: {msg}") } else { format!("{loc}: {msg} @fn={site}") };
         let quiet = QUIET_PANICS.with(|q| *q.borrow());
         if !quiet {
             eprintln!("[panic] {text}");
@@ -316,6 +330,105 @@ pub fn install_panic_hook() {
         }
         LAST_PANIC.with(|p| *p.borrow_mut() = Some(text));
     }));
+}
+
+/// Innermost function of the code under test (a frame whose source lies under /repo/rust/) on
+/// the current stack, as `Type::method` / `module::function` (generics, closures and hashes stripped).
+pub fn in_repo_site() -> String {
+    let bt = std::backtrace::Backtrace::force_capture().to_string();
+    if std::env::var_os("AMV_DEBUG_BT").is_some() {
+        eprintln!("{bt}");
+    }
+    let lines: Vec<&str> = bt.lines().collect();
+    for i in 1..lines.len() {
+        let l = lines[i].trim_start();
+        if let Some(path) = l.strip_prefix("at ") {
+            if path.starts_with("/repo/rust/") {
+                // the symbol is on the previous line: "  NN: path::to::function" (inlined frames
+                // carry the bare function name only); closures are skipped in favour of the
+                // function that contains them
+                let sym = lines[i - 1].trim_start();
+                let sym = sym.split_once(": ").map(|x| x.1).unwrap_or(sym);
+                let f = short_fn(sym);
+                if !f.is_empty() {
+                    return f;
+                }
+            }
+        }
+    }
+    String::new()
+}
+
+pub fn short_fn(sym: &str) -> String {
+    // "<Type as Trait>::method" / "<Type>::method": keep the type
+    let mut prefix = String::new();
+    let mut rest = sym;
+    if let Some(inner) = sym.strip_prefix('<') {
+        let mut depth = 1i32;
+        let mut end = None;
+        for (i, c) in inner.char_indices() {
+            match c {
+                '<' => depth += 1,
+                '>' => {
+                    depth -= 1;
+                    if depth == 0 {
+                        end = Some(i);
+                        break;
+                    }
+                }
+                _ => {}
+            }
+        }
+        if let Some(e) = end {
+            let ty = &inner[..e];
+            let ty = ty.split(" as ").next().unwrap_or(ty);
+            prefix = short_fn(ty.trim_start_matches('&').trim_start_matches("mut "));
+            prefix = prefix.rsplit("::").next().unwrap_or("").to_string();
+            rest = &inner[e + 1..];
+        }
+    }
+    // strip generic arguments
+    let mut out = String::new();
+    let mut depth = 0i32;
+    for c in rest.chars() {
+        match c {
+            '<' => depth += 1,
+            '>' => depth -= 1,
+            _ if depth == 0 => out.push(c),
+            _ => {}
+        }
+    }
+    let mut segs: Vec<String> = out
+        .split("::")
+        .filter(|s| !s.is_empty() && !s.starts_with('{') && !(s.len() == 17 && s.starts_with('h')))
+        .map(|s| s.to_string())
+        .collect();
+    if !prefix.is_empty() && !segs.is_empty() {
+        segs.insert(0, prefix);
+    }
+    let n = segs.len();
+    if n >= 2 {
+        format!("{}::{}", segs[n - 2], segs[n - 1])
+    } else {
+        segs.join("::")
+    }
+}
+
+/// Like `panic_sig` but with the innermost in-repo function: `panic|file.rs#Type::method|message class`.
+pub fn panic_sig_fn(text: &str) -> String {
+    let (body, site) = match text.rfind(" @fn=") {
+        Some(i) => (&text[..i], &text[i + 5..]),
+        None => (text, ""),
+    };
+    let base = panic_sig(body);
+    if site.is_empty() {
+        return base;
+    }
+    let mut parts: Vec<String> = base.splitn(3, '|').map(|s| s.to_string()).collect();
+    if parts.len() == 3 {
+        parts[1] = format!("{}#{}", parts[1], site);
+    }
+    parts.join("|")
 }
 
 pub fn set_quiet_panics(q: bool) {
@@ -335,7 +448,11 @@ pub fn catch<T>(f: impl FnOnce() -> T) -> Result<T, String> {
 
 /// Coarse, line-shift-stable signature of a panic text: file basename + message class
 pub fn panic_sig(text: &str) -> String {
-    // text = "path/file.rs:LINE: message"
+    // text = "path/file.rs:LINE: message[ @fn=site]"
+    let text = match text.rfind(" @fn=") {
+        Some(i) => &text[..i],
+        None => text,
+    };
     let (loc, msg) = match text.find(": ") {
         Some(i) => (&text[..i], &text[i + 2..]),
         None => (text, ""),
@@ -435,8 +552,40 @@ pub fn limit_address_space(gib: u64) {
     }
 }
 
+static CASE_CPU_START_NS: std::sync::atomic::AtomicU64 = std::sync::atomic::AtomicU64::new(u64::MAX);
+
+fn process_cpu_ns() -> u64 {
+    let mut ts = libc::timespec { tv_sec: 0, tv_nsec: 0 };
+    unsafe {
+        libc::clock_gettime(libc::CLOCK_PROCESS_CPUTIME_ID, &mut ts);
+    }
+    ts.tv_sec as u64 * 1_000_000_000 + ts.tv_nsec as u64
+}
+
+/// Per-case CPU watchdog (CPU time, not wall time: independent of machine load). A case that burns
+/// more than `limit_s` seconds of CPU aborts the worker with a line the coordinator recognises.
+pub fn start_cpu_watchdog(limit_s: u64) {
+    use std::sync::atomic::Ordering;
+    std::thread::spawn(move || loop {
+        std::thread::sleep(Duration::from_millis(500));
+        let start = CASE_CPU_START_NS.load(Ordering::Relaxed);
+        if start == u64::MAX {
+            continue;
+        }
+        let used = process_cpu_ns().saturating_sub(start);
+        if used > limit_s * 1_000_000_000 {
+            let line = format!("amv-cpu-cap: one case used more than {limit_s} s of CPU\n");
+            unsafe {
+                libc::write(2, line.as_ptr() as *const libc::c_void, line.len());
+                libc::abort();
+            }
+        }
+    });
+}
+
 pub fn run_worker(check: &dyn Check, a: &WorkerArgs) -> Ctx {
     let mut cx = Ctx::new(check.id(), a.tier, a.seed);
+    start_cpu_watchdog(check.case_cpu_limit_s());
     cx.verbose = a.verbose;
     let total = check.cases(a.tier);
     let start = Instant::now();
@@ -469,6 +618,7 @@ pub fn run_worker(check: &dyn Check, a: &WorkerArgs) -> Ctx {
         }
         cx.case = case;
         cx.evaluations += 1;
+        CASE_CPU_START_NS.store(process_cpu_ns(), std::sync::atomic::Ordering::Relaxed);
         let mut rng = Rng::for_case(a.seed, check.id(), case);
         let r = {
             let cxr = &mut cx;
@@ -476,7 +626,7 @@ pub fn run_worker(check: &dyn Check, a: &WorkerArgs) -> Ctx {
         };
         if let Err(p) = r {
             if check.panic_is_violation() {
-                let sig = panic_sig(&p);
+                let sig = check.panic_sig_of(&p);
                 cx.violation(&sig, format!("panic escaped: {p}"), json!({"panic": p}));
             } else {
                 cx.count("aborted_by_panic");
@@ -489,6 +639,7 @@ pub fn run_worker(check: &dyn Check, a: &WorkerArgs) -> Ctx {
             }
         }
     }
+    CASE_CPU_START_NS.store(u64::MAX, std::sync::atomic::Ordering::Relaxed);
     let _ = std::fs::remove_file(&cur_path);
     cx
 }
@@ -568,7 +719,7 @@ pub fn coordinator(check: &dyn Check, a: &RunArgs) -> i32 {
         active.push(spawn(i, 0, None));
     }
     // watchdog: generous (budget*6 + 300 s); firing = inconclusive
-    let deadline = Instant::now() + Duration::from_secs(budget * 6 + 300);
+    let deadline = Instant::now() + Duration::from_secs(budget * 20 + 900);
     let mut merged_counters: BTreeMap<String, u64> = BTreeMap::new();
     let mut distinct: HashSet<u64> = HashSet::new();
     let mut samples: Vec<J> = vec![];
@@ -632,10 +783,10 @@ pub fn coordinator(check: &dyn Check, a: &RunArgs) -> i32 {
                     match case {
                         Some(c) => {
                             crashes.push((c, format!("worker {i} died with {s} while running case {c}; stderr tail:\n{tail}")));
-                            if attempt < 6 {
+                            if attempt < 60 {
                                 respawn.push((i, attempt + 1, c));
                             } else {
-                                inconclusive.push(format!("shard {i} crashed more than 6 times; rest of the shard not run"));
+                                inconclusive.push(format!("shard {i} crashed more than 60 times; rest of the shard not run"));
                             }
                         }
                         None => inconclusive.push(format!("worker {i} died with {s} outside any case; stderr tail:\n{tail}")),
@@ -705,20 +856,31 @@ pub fn coordinator(check: &dyn Check, a: &RunArgs) -> i32 {
     }
     // crashes of a worker process
     for (case, what) in crashes {
-        if check.panic_is_violation() {
-            let sig = if what.contains("amv-alloc-cap:") {
-                "crash|worker-died|single-allocation-request>=1GiB".to_string()
-            } else if what.contains("memory allocation of") {
+        let alloc_cap = what.contains("amv-alloc-cap:");
+        let cpu_cap = what.contains("amv-cpu-cap:");
+        let alloc_fail = what.contains("memory allocation of") || cpu_cap;
+        if check.panic_is_violation() || ((alloc_cap || alloc_fail) && check.alloc_death_is_violation()) {
+            let sig = if alloc_cap {
+                let site = what.split("site=").nth(1).and_then(|r| r.lines().next()).unwrap_or("?").trim().to_string();
+                format!("crash|worker-died|single-allocation-request>=1GiB|{site}")
+            } else if cpu_cap {
+                "crash|worker-died|cpu-limit-per-case-exceeded".to_string()
+            } else if alloc_fail {
                 "crash|worker-died|allocation-failed-under-RLIMIT_AS".to_string()
             } else {
                 match what.split("last panic before death: ").nth(1) {
-                    Some(rest) => format!("crash|worker-died|{}", panic_sig(rest.lines().next().unwrap_or(""))),
+                    Some(rest) => format!("crash|worker-died|{}", check.panic_sig_of(rest.lines().next().unwrap_or(""))),
                     None => "crash|worker-died".to_string(),
                 }
             };
             violations.push(Violation { sig, what, case, detail: J::Null });
         } else {
-            inconclusive.push(what);
+            // not this property's business (C15/C17/C37 report it): counted, and the run only goes
+            // inconclusive when too many cases were lost this way
+            *merged_counters.entry("aborted_by_worker_death".into()).or_insert(0) += 1;
+            if escaped.len() < 10 {
+                escaped.push(json!({"case": case, "worker_death": first_line(&what)}));
+            }
         }
     }
     // known findings
@@ -757,7 +919,7 @@ pub fn coordinator(check: &dyn Check, a: &RunArgs) -> i32 {
             replay_paths.push(path);
         }
     }
-    let aborted = merged_counters.get("aborted_by_panic").copied().unwrap_or(0);
+    let aborted = merged_counters.get("aborted_by_panic").copied().unwrap_or(0) + merged_counters.get("aborted_by_worker_death").copied().unwrap_or(0);
     if evaluations > 0 && aborted * 20 > evaluations {
         inconclusive.push(format!(
             "{aborted} of {evaluations} cases were aborted by a panic of the code under test (reported by C37): {}",
@@ -856,6 +1018,8 @@ pub fn replay(check: &dyn Check, path: &Path) -> i32 {
     let seed = v["seed"].as_u64().unwrap_or(1);
     let case = v["case"].as_u64().unwrap_or(0);
     set_quiet_panics(false);
+    limit_address_space(6);
+    crate::res::enable_cap(true);
     let a = WorkerArgs {
         tier,
         seed,
